@@ -97,6 +97,12 @@ namespace
             V_CHECK(v.size() == 1, "C05/header-count", ctx + ": header " + h.name + " appears " + std::to_string(v.size()) + " times");
             V_CHECK(v[0] == h.text, "C05/header-value", ctx + ": header " + h.name + " = \"" + printable(v[0]) + "\" expected \"" + printable(h.text) + "\"");
         }
+        if (unsigned door = respgen::mime_door(spec))
+        {
+            auto ct = m.all("Content-Type");
+            V_CHECK(ct.size() == 1 && ct[0] == "text/plain", "C05/content-type-door",
+                    ctx + ": content type text/plain given " + (door == 1 ? "as the third argument of send()" : "through setMime()") + " but the response carries " + (ct.empty() ? std::string("no Content-Type") : std::to_string(ct.size()) + " x \"" + printable(ct[0]) + "\""));
+        }
         auto sc = m.all("Set-Cookie");
         V_CHECK(sc.size() == spec.cookies.size(), spec.file ? "C05/file/cookie-count" : "C05/cookie-count", ctx + ": " + std::to_string(sc.size()) + " Set-Cookie lines, " + std::to_string(spec.cookies.size()) + " cookies set");
         for (auto& ck : spec.cookies)
